@@ -374,6 +374,8 @@ class Session:
             rx = keywords.SQL_REGEX       # the module-level list itself
         elif op.get('which') == 'subset':
             rx = [r for r in keywords.SQL_REGEX][::2]
+        elif op.get('which') == 'remap':
+            rx = _remapped_rules()
         else:
             rx = [(r'ZORG\b', tokens.Keyword)] + list(keywords.SQL_REGEX)
         lx.set_SQL_REGEX(rx)
@@ -408,9 +410,19 @@ class Session:
         from sqlparse import tokens
         lx = Lexer()
         lx.clear()
-        lx.set_SQL_REGEX([(r'\w+', tokens.Name), (r'\s+', tokens.Whitespace)])
-        lx.add_keywords({'SELECT': tokens.Name})
-        list(lx.get_tokens('select zz'))
+        if op.get('which') == 'remap':
+            # a dialect of its own: the library's patterns, other token types
+            from sqlparse import keywords
+            lx.set_SQL_REGEX(_remapped_rules())
+            lx.add_keywords({'SELECT': tokens.Name, 'FROM': tokens.Keyword})
+            lx.add_keywords(keywords.KEYWORDS)
+            list(lx.get_tokens("select *, 1, 'x' from t where a >= 2.5;"))
+            self.stat('separate_lexer_remap')
+        else:
+            lx.set_SQL_REGEX([(r'\w+', tokens.Name),
+                              (r'\s+', tokens.Whitespace)])
+            lx.add_keywords({'SELECT': tokens.Name})
+            list(lx.get_tokens('select zz'))
         self.stat('separate_lexer')
 
     # caller-side mutation
@@ -436,3 +448,27 @@ class Session:
 
     def op_gc(self, op):
         gc.collect()
+
+
+def _remapped_rules():
+    """The library's own rule list with the token types of several patterns
+    exchanged (a caller's dialect that reuses the stock *patterns*): anything
+    that remembers a rule by its pattern alone hands these types to the
+    default configuration later, or the default types to this one."""
+    from sqlparse import keywords, tokens
+    swap = {tokens.Wildcard: tokens.Operator,
+            tokens.Number.Integer: tokens.Name,
+            tokens.Number.Float: tokens.Number.Integer,
+            tokens.String.Single: tokens.Literal,
+            tokens.Comparison: tokens.Operator,
+            tokens.Punctuation: tokens.Operator,
+            tokens.Comment.Single: tokens.Comment.Multiline,
+            tokens.Newline: tokens.Whitespace}
+    out = []
+    for rx, tt in keywords.SQL_REGEX:
+        try:
+            tt = swap.get(tt, tt)
+        except TypeError:
+            pass
+        out.append((rx, tt))
+    return out
